@@ -15,7 +15,11 @@ PROPS = {
     "C03": dict(level="exploration", stages=[dict(kind="sim", quick=25, thorough=600)],
                 rule="one evaluation = one seeded history with a clean restart after every call (or at random positions), from an empty directory or a committed schema-v1 golden file; distinct = distinct canonical event-log hash; non-trivial = executed at least one call",
                 assumptions=["restart is clean (no crash); crash points are C04's", "golden files were written by the pinned tree"]),
-    "C05": dict(level="exploration", stages=[dict(kind="sim", quick=25, thorough=600)],
+    "C04": dict(level="fault_enumeration", stages=[dict(kind="mod", module="crashfs", db=True, cache=False, per_kind_quick=2, per_kind_thorough=24, quick=150, thorough=1500)],
+                rule="one evaluation = one real run of a child process under ptrace: for each sampled (pre-history, mutating operation) of each kind (database creation, create secret, new version, activate, delete-version, delete) the operation's file-system system calls are recorded, then EVERY call is (a) made to fail with each applicable errno and (b) the process is killed on entry to it and to its successor; afterwards the file is reopened by a fresh process. distinct = distinct (operation, system-call position, fault); non-trivial = the fault was confirmed from strace's own output to have landed on the intended call inside the operation",
+                assumptions=["kills land on system-call boundaries (ptrace cannot stop inside a call; partial writes are covered by the trace invariant that only the temporary file is ever written)", "power loss with unsynced data is covered by the invariant that fsync of the temporary file precedes the rename", "tmpfs as the file system"]),
+    "C05": dict(level="exploration", stages=[dict(kind="sim", quick=25, thorough=600),
+                                             dict(kind="mod", module="crashfs", db=True, cache=True, per_kind_quick=1, per_kind_thorough=8, quick=45, thorough=600)],
                 rule="one evaluation = one seeded history with high-entropy marker names/values; after every save every file in the state directory is scanned for every marker in raw, hex, base64 (3 alignments, std+url) and JSON-escaped form; distinct = distinct canonical event-log hash; non-trivial = executed at least one call",
                 assumptions=["wholesale replacement by an older valid snapshot is out of scope, as the property says"]),
     "C06": dict(level="exploration", stages=[
@@ -42,7 +46,8 @@ PROPS = {
                          env={"VERIF_GOMAXPROCS": "4", "GORACE": "halt_on_error=1 exitcode=66", "VERIF_PRINT_START": "1"})],
                 rule=live_rule, probes_required=["read-judged", "reader-contended"],
                 assumptions=["install order is taken from the sequence of cache documents (written under the store's lock right after each install)"]),
-    "C13": dict(level="exploration", stages=[dict(kind="sim", quick=25, thorough=600)], rule=live_rule + "; restarts from the cache; a restart probe (second store from the last document with a dead service, and a FileClient on the same bytes) after every shutdown; separate corruption scenario: NewStore on mutated documents and arbitrary bytes",
+    "C13": dict(level="exploration", stages=[dict(kind="sim", quick=25, thorough=600),
+                                             dict(kind="mod", module="crashfs", db=False, cache=True, per_kind_quick=3, per_kind_thorough=30, quick=60, thorough=600)], rule=live_rule + "; restarts from the cache; a restart probe (second store from the last document with a dead service, and a FileClient on the same bytes) after every shutdown; separate corruption scenario: NewStore on mutated documents and arbitrary bytes",
                 probes_required=["restart-probe", "cache-write-error"],
                 assumptions=["FileCache atomic replacement under kills is decided by the crashfs engine"]),
     "C15": dict(level="exploration", stages=[dict(kind="sim", quick=25, thorough=600)], rule=live_rule + "; 1-3 updaters per secret (some created while a round is parked), builders that reject chosen versions, values that count Close",
